@@ -218,6 +218,8 @@ def field_src(f):
         return "%s([%s])" % (cls, ", ".join(field_src(g) for g in f["fs"]))
     if t == "ref":
         return f["cls"]
+    if t == "raw":          # declaration given as source text (not emitted to Coq), e.g. "Tuple[Inner]"
+        return f["src"]
     raise ValueError(f)
 
 
